@@ -270,4 +270,129 @@ Proof.
   rewrite REF in SIM |- *. destruct SIM as [idx' [it' [ex' SIM]]]. rewrite SIM.
   unfold iv_env. gorun. reflexivity.
 Qed.
+
+(* ---------- RemoveValue: "for iterator.HasNext() { counter--; value = GetNext(); if counter == 0 { continue }; .. }" ---------- *)
+Lemma pos_nat (n k : nat) : pos n (Z.of_nat k) = if (k =? 0) || (n <? k) then None else Some (k - 1).
+Proof. unfold pos. repeat zsplit; cbn [orb]; try lia; try reflexivity; f_equal; lia. Qed.
+
+Lemma gen_arr_set1 arr (index : nat) a F : 20 <= F ->
+  call_at F (arr_val arr) id_SetValue [VInt (Z.of_nat index); VElem a] =
+  match arr_set arr index a with Ret arr' => ROk (VTuple [], arr_val arr') | _ => RPanic end.
+Proof.
+  intros HF. rewrite gen_array_SetValue by lia. rewrite pos_nat. unfold arr_set.
+  destruct ((index =? 0) || (length arr <? index)); reflexivity.
+Qed.
+
+Definition rv_loop : stmt := nth 6 (fn_body fn_list__RemoveValue) SBreak.
+Definition rv_cond : option expr := Eval cbv in match rv_loop with SFor _ c _ _ => c | _ => None end.
+Definition rv_body : list stmt := Eval cbv in match rv_loop with SFor _ _ _ b => b | _ => [] end.
+Definition rv_env n l (removed : A) (size : Z) arr (counter : Z) it (index : nat) : env A :=
+  [(id_v, lst_val n l); (id_index, VInt (Z.of_nat index)); (id_removed, VElem removed); (id_size, VInt size);
+   (id_array, arr_val arr); (id_counter, VInt counter); (id_iterator, it_rep VNil it)].
+Notation rv_at F n l removed size arr counter it index ex :=
+  (i_loop (interp_at A zero ext prog F) rv_cond None rv_body (rv_env n l removed size arr counter it index ++ ex)).
+
+Section RvSteps.
+Variables (n : val A) (l : list A) (removed : A) (size : Z).
+Variables (counter : Z) (index : nat) (it : iter A) (arr : list A) (ex : env A) (F : nat).
+Hypothesis HF : 30 <= F.
+
+Lemma rv_exit : has_next it = false ->
+  rv_at (S F) n l removed size arr counter it index ex = ROk (SgNormal, rv_env n l removed size arr counter it index ++ ex).
+Proof.
+  intros H. rewrite loop_S; unfold loop_step. fuel F 30. unfold rv_cond, rv_body, rv_env. gorun.
+  rewrite (gen_HasNext A zero ext) by lia. rewrite H. gorun. reflexivity.
+Qed.
+
+Hypothesis Hex : forall w, set id_value w ex = [(id_value, w)].
+
+Lemma rv_step_skip : has_next it = true -> (counter - 1 = 0)%Z ->
+  rv_at (S F) n l removed size arr counter it index ex =
+  rv_at F n l removed size arr (counter - 1) (snd (get_next zero it)) index [(id_value, VElem (fst (get_next zero it)))].
+Proof.
+  intros H E. rewrite loop_S; unfold loop_step. fuel F 30. unfold rv_cond, rv_body, rv_env. gorun.
+  rewrite (gen_HasNext A zero ext) by lia. rewrite H. gorun.
+  rewrite (gen_GetNext A zero ext) by lia. gorun. rewrite Hex. gogo. reflexivity.
+Qed.
+
+Lemma rv_step_keep arr' : has_next it = true -> (counter - 1 <> 0)%Z -> arr_set arr index (fst (get_next zero it)) = Ret arr' ->
+  rv_at (S F) n l removed size arr counter it index ex =
+  rv_at F n l removed size arr' (counter - 1) (snd (get_next zero it)) (S index) [(id_value, VElem (fst (get_next zero it)))].
+Proof.
+  intros H E EA. pose proof (gen_arr_set1 arr index (fst (get_next zero it))) as GS. rewrite EA in GS.
+  rewrite loop_S; unfold loop_step. fuel F 30. unfold rv_cond, rv_body, rv_env. gorun.
+  rewrite (gen_HasNext A zero ext) by lia. rewrite H. gorun.
+  rewrite (gen_GetNext A zero ext) by lia. gorun. rewrite Hex. gogo.
+  rewrite GS by lia. gorun. replace (Z.of_nat index + 1)%Z with (Z.of_nat (S index)) by lia. reflexivity.
+Qed.
+
+Lemma rv_step_keep_panic : has_next it = true -> (counter - 1 <> 0)%Z -> arr_set arr index (fst (get_next zero it)) = Panic ->
+  rv_at (S F) n l removed size arr counter it index ex = RPanic.
+Proof.
+  intros H E EA. pose proof (gen_arr_set1 arr index (fst (get_next zero it))) as GS. rewrite EA in GS.
+  rewrite loop_S; unfold loop_step. fuel F 30. unfold rv_cond, rv_body, rv_env. gorun.
+  rewrite (gen_HasNext A zero ext) by lia. rewrite H. gorun.
+  rewrite (gen_GetNext A zero ext) by lia. gorun. rewrite Hex. gogo.
+  rewrite GS by lia. reflexivity.
+Qed.
+End RvSteps.
+
+Lemma rv_loop_sim n l removed size : forall mf counter index it arr ex F,
+  (forall w, set id_value w ex = [(id_value, w)]) ->
+  mf + 31 <= F ->
+  match remove_value_loop A zero mf counter index it arr with
+  | Ret arr' => exists counter' index' it' ex',
+      rv_at F n l removed size arr counter it index ex =
+      ROk (SgNormal, rv_env n l removed size arr' counter' it' index' ++ ex')
+  | Panic => rv_at F n l removed size arr counter it index ex = RPanic
+  | Hang => True
+  end.
+Proof.
+  intros mf. induction mf as [|mf IH]; intros counter index it arr ex F Hex HF;
+    (destruct F as [|F]; [lia|]); cbn [remove_value_loop]; destruct (has_next it) eqn:HN; cbn [negb].
+  - exact I.
+  - rewrite rv_exit by (assumption || lia). eexists _, _, _, _. reflexivity.
+  - destruct (get_next zero it) as [v it'] eqn:EN. destruct (Z.eqb_spec (counter - 1) 0) as [E|NE].
+    + rewrite (rv_step_skip n l removed size counter index it arr ex F ltac:(lia) Hex HN E).
+      rewrite EN. cbn [fst snd]. apply IH; [reflexivity|lia].
+    + destruct (arr_set arr index v) as [arr'| |] eqn:EA; cbn [out_bind].
+      * rewrite (rv_step_keep n l removed size counter index it arr ex F ltac:(lia) Hex arr' HN NE) by (rewrite EN; exact EA).
+        rewrite EN. cbn [fst snd]. apply IH; [reflexivity|lia].
+      * apply rv_step_keep_panic; rewrite ?EN; assumption || lia.
+      * exact I.
+  - rewrite rv_exit by (assumption || lia). eexists _, _, _, _. reflexivity.
+Qed.
+
+(* list.RemoveValue(index) is [remove_value_impl] (ListImpl.v) *)
+Lemma gen_list_RemoveValue_impl n l i F :
+  (Z.of_nat (length l) < two63)%Z -> length l + 100 <= F ->
+  call_at F (lst_val n l) id_RemoveValue [VInt i] =
+  match remove_value_impl zero l i with
+  | Ret (r, l') => ROk (VElem r, lst_val n l') | Panic => RPanic | Hang => RFuel
+  end.
+Proof.
+  intros HL HF. unfold remove_value_impl.
+  fuel F 60. gocall. rewrite gen_list_GetValue by lia.
+  pose proof (pos_some (length l) i) as P. pose proof (gen_toNormalized n l i) as TN.
+  pose proof (remove_value_refines A zero l i) as R. unfold remove_value_impl, remove_value in R.
+  destruct (pos (length l) i) as [k|]; [|reflexivity]. specialize (P k eq_refl).
+  gorun. rewrite gen_list_GetSize by lia. gorun. gogo.
+  rewrite gen_list_GetClass by lia. gorun. rewrite gen_listClass_Notation by lia. gorun.
+  replace (Z.of_nat (length l) - 1)%Z with (Z.of_nat (length l - 1)) by lia.
+  rewrite gen_arrayClass_Make by lia. gorun.
+  rewrite TN by lia. gorun.
+  rewrite gen_list_GetIterator by lia. gorun.
+  match goal with |- context[i_loop (interp_at A zero ext prog ?FF) ?c ?p ?b ?en] =>
+    pose proof (rv_loop_sim n l (nth k l zero) (Z.of_nat (length l - 1)) (S (length l)) (Z.of_nat (S k)) 1 (it_make l)
+                  (arr_make zero (length l - 1)) [] FF ltac:(reflexivity) ltac:(lia)) as SIM;
+    change (i_loop (interp_at A zero ext prog FF) c p b en)
+      with (rv_at FF n l (nth k l zero) (Z.of_nat (length l - 1)) (arr_make zero (length l - 1)) (Z.of_nat (S k)) (it_make l) 1 [])
+  end.
+  destruct (remove_value_loop A zero (S (length l)) (Z.of_nat (S k)) 1 (it_make l) (arr_make zero (length l - 1)))
+    as [arr'| |]; cbn [out_map] in *.
+  - destruct SIM as [c' [i' [it' [ex' SIM]]]]. rewrite SIM. unfold rv_env. gorun. reflexivity.
+  - rewrite SIM. reflexivity.
+  - (* the model's own fuel always suffices (remove_value_refines) *)
+    discriminate R.
+Qed.
 End GenSeq.
